@@ -852,28 +852,34 @@ type recommitPlan struct {
 }
 
 func (ex *explorer) runRecommit(workers int) {
-	thorough := ex.r.Thorough()
-	d1, d2, d2sweep := 5, 5, 3
-	if thorough {
-		d1, d2, d2sweep = 6, 6, 4
+	// depths: one key fault-free / one key with the sweep / two keys fault-free / two keys with the sweep
+	d1, d1sweep, d2, d2sweep := 5, 4, 4, 3
+	if ex.r.Thorough() {
+		d1, d1sweep, d2, d2sweep = 6, 5, 5, 4
 	}
 	plans := []recommitPlan{
 		{"memoryStore", 0, 1, d1, true},
-		{"fileStore", 0, 1, d1, false},
+		{"fileStore", 0, 1, d1sweep, false},
+		{"fileStore", 0, 1, d1, true},
 		{"memoryStore", 0, 2, d2, true},
 		{"fileStore", 0, 2, d2sweep, false},
 		{"fileStore", 0, 2, d2, true},
 	}
-	if thorough {
+	if ex.r.Thorough() {
 		plans = append(plans, recommitPlan{"memoryStore", 1, 2, d2 - 1, true}, recommitPlan{"fileStore", 1, 2, d2 - 1, true})
 	}
+	swept := map[string]int{} // "<nkeys>" -> depth already run with the sweep (fileStore, cfg 0)
 	for _, pl := range plans {
 		alpha := macroAlphabet(pl.nkeys)
 		for d := 1; d <= pl.depth; d++ {
-			if !pl.noSweep || pl.kind != "fileStore" {
-				// nothing to skip
-			} else if d <= d2sweep && pl.nkeys == 2 {
-				continue // already run with the sweep
+			key := fmt.Sprint(pl.nkeys)
+			if pl.kind == "fileStore" && pl.cfg == 0 {
+				if pl.noSweep && d <= swept[key] {
+					continue // already run (fault-free run included) with the sweep
+				}
+				if !pl.noSweep {
+					swept[key] = d
+				}
 			}
 			total := 1
 			for i := 0; i < d; i++ {
